@@ -176,6 +176,12 @@ def fmt_families(fmt, ops, attr_vals=None, star=False, abstract=True, extra=None
                              invariants=tlc.GEN_INVARIANTS, simulate=dict(num=4000, depth=4)),
         },
     }
+    fams[fmt + '-EqShape'] = {   # (p => q) and (r => s) over all literals of three names: the shape readers give an equivalence
+        'quick':    dict(consts=dict(N=3, MaxKids=2, MinHi=1, Axes={'ctc'}, MaxCtc=1, CtcDepth=0, CtcBinOps=set(), CtcEqShape=True,
+                                     CtcMinFeatures=3, Fmt=fmt), invariants=tlc.GEN_INVARIANTS, cap=1500),
+        'thorough': dict(consts=dict(N=3, MaxKids=2, MinHi=1, Axes={'ctc'}, MaxCtc=1, CtcDepth=0, CtcBinOps=set(), CtcEqShape=True,
+                                     CtcMinFeatures=3, Fmt=fmt), invariants=tlc.GEN_INVARIANTS, cap=15000),
+    }
     fams[fmt + '-Deep'] = {   # walks: constraints grown to depth 3
         'quick':    dict(consts=dict(N=4, MaxKids=2, MinHi=1, Axes={'ctc'}, MaxCtc=2, CtcDepth=1, CtcBinOps=ops, CtcMinFeatures=3, CtcGrow=2,
                                      Fmt=fmt), invariants=tlc.GEN_INVARIANTS, simulate=dict(num=400, depth=9)),
